@@ -285,6 +285,9 @@ def run(ctx):
     _reader_defaults(ctx, repo)
     _circuit_op_serializer(ctx, repo)
     _proto_escape(ctx, repo)
+    _writer_presence(ctx, repo)
+    _reader_type_guards(ctx, repo)
+    _dedupe_keys(ctx, repo)
     shared.module_state_rule(ctx, 'C16.i', ['cirq-google/cirq_google/api/', 'cirq-google/cirq_google/serialization/', 'cirq-google/cirq_google/study/', 'cirq-google/cirq_google/devices/'], floor=3)
     ctx.decided.append('C16.i converters keep no state between calls: module-level containers of the serialization packages are never written from inside a function')
 
@@ -678,6 +681,17 @@ def _constant_keys(ctx, repo, m, ci):
                     root = root.value
                 hops += 1
             ok = isinstance(root, ast.Name) and (root.id in params or root.id in loopvars) and root.id not in derived
+            tup = root if isinstance(root, ast.Tuple) else derived.get(root.id) if isinstance(root, ast.Name) else None
+            if not ok and isinstance(tup, ast.Tuple):
+                # (obj, obj.attr, ...): a tuple that contains the domain object itself can only equal a key built from an equal object
+                elts = tup.elts
+
+                def _root(e):
+                    while isinstance(e, ast.Attribute):
+                        e = e.value
+                    return e.id if isinstance(e, ast.Name) else None
+                r0 = _root(elts[0]) if elts and isinstance(elts[0], ast.Name) else None
+                ok = r0 is not None and (r0 in params or r0 in loopvars) and r0 not in derived and all(_root(e) == r0 for e in elts)
             why = ''
             if not ok:
                 why = f'raw_constants is keyed by `{ast.unparse(k)}`'
@@ -1102,3 +1116,197 @@ def _proto_escape(ctx, repo):
                            m.rel, c.lineno, construct=f'{m.name}.{fn.name}')
     if n == 0:
         raise AnalysisError('C16.h: no repeated proto field reaches a constructor or a copying call: the schema resolution is broken')
+
+
+def _schemas(repo):
+    msgs = {}
+    proto_dir = 'cirq-google/cirq_google/api/v2'
+    rels = [r for r in (f'{proto_dir}/{n}' for n in ('program.proto', 'run_context.proto', 'result.proto', 'device.proto', 'ndarrays.proto', 'metrics.proto', 'calibration.proto'))
+            if repo.exists(r)]
+    if len(rels) < 3:
+        raise AnalysisError('.proto schemas not found')
+    for r in rels:
+        msgs.update(proto.parse(repo.read_text(r)))
+    return msgs
+
+
+def _field_of(msgs, expr, env):
+    """Schema field an attribute chain rooted at a proto-typed name ends in: (field dict, owner Msg) or None."""
+    if isinstance(expr, ast.Attribute):
+        b = _msg_of(msgs, expr.value, env)
+        if b is not None:
+            f = b.fields.get(expr.attr)
+            if f is not None:
+                return f, b
+    return None
+
+
+def _msg_of(msgs, expr, env):
+    if isinstance(expr, ast.Name):
+        return env.get(expr.id)
+    if isinstance(expr, ast.Attribute):
+        r = _field_of(msgs, expr, env)
+        if r and not r[0]['repeated'] and not r[0]['map']:
+            return proto.find(msgs, r[0]['type'], r[1])
+    if isinstance(expr, ast.Subscript):
+        r = _field_of(msgs, expr.value, env) if isinstance(expr.value, ast.Attribute) else None
+        if r and r[0]['repeated']:
+            return proto.find(msgs, r[0]['type'], r[1])
+    if isinstance(expr, ast.Call) and isinstance(expr.func, ast.Attribute) and expr.func.attr == 'add':
+        r = _field_of(msgs, expr.func.value, env) if isinstance(expr.func.value, ast.Attribute) else None
+        if r and r[0]['repeated']:
+            return proto.find(msgs, r[0]['type'], r[1])
+    return None
+
+
+_NUMERIC = {'int32', 'int64', 'uint32', 'uint64', 'sint32', 'sint64', 'fixed32', 'fixed64', 'float', 'double', 'bool'}
+
+
+def _writer_presence(ctx, repo):
+    """C16.j - writers do not take a numeric 0 for 'absent'."""
+    ctx.decided.append('C16.j writers: a numeric proto field is never written under a bare truthiness test of the value being written (0 / 0.0 / False are values, not absence)')
+    ctx.rule('C16.j', 'zero is a value on the writer side: in cirq_google functions that fill a generated message, an `if v:` (v an attribute, a getattr(...) or a local) whose body stores v '
+             'into a numeric scalar field of the schema is a violation - the test must be `is not None`; tests guarding string / repeated / message fields are not concerned', floor=5, style='WR')
+    msgs = _schemas(repo)
+    n = 0
+    for m in sorted(repo.modules.values(), key=lambda x: x.rel):
+        if not m.rel.startswith('cirq-google/') or m.rel.endswith('_test.py') or '_pb2' in m.rel:
+            continue
+        for fn in [f for f in ast.walk(m.tree) if isinstance(f, ast.FunctionDef)]:
+            env = {}
+            for a in fn.args.args + fn.args.kwonlyargs:
+                if a.annotation is not None:
+                    t = ast.unparse(a.annotation).strip('\'"')
+                    for part in t.split('|'):
+                        nm = part.strip().split('.')[-1]
+                        if '_pb2' in part and nm in msgs:
+                            env[a.arg] = msgs[nm]
+            if not env:
+                continue
+            grew = True
+            while grew:
+                grew = False
+                for s in ast.walk(fn):
+                    if isinstance(s, ast.Assign) and len(s.targets) == 1 and isinstance(s.targets[0], ast.Name) and s.targets[0].id not in env:
+                        mm = _msg_of(msgs, s.value, env)
+                        if mm is not None:
+                            env[s.targets[0].id] = mm
+                            grew = True
+            for i_ in ast.walk(fn):
+                if not isinstance(i_, ast.If):
+                    continue
+                stores = []
+                for st in i_.body:
+                    if isinstance(st, ast.Assign) and len(st.targets) == 1:
+                        r = _field_of(msgs, st.targets[0], env)
+                        if r and not r[0]['repeated'] and not r[0]['map'] and r[0]['type'] in _NUMERIC:
+                            stores.append((st, r[0]))
+                if not stores:
+                    continue
+                for st, f in stores:
+                    n += 1
+                    test = i_.test
+                    vtxt = ast.unparse(st.value)
+
+                    def same(a, b):
+                        ta, tb = ast.unparse(a), ast.unparse(b)
+                        if ta == tb:
+                            return True
+                        # getattr(x, 'idx', None)  ~  x.idx
+                        for p_, q_ in ((a, b), (b, a)):
+                            if isinstance(p_, ast.Call) and call_name(p_) == 'getattr' and len(p_.args) >= 2 and isinstance(p_.args[1], ast.Constant) \
+                                    and isinstance(q_, ast.Attribute) and q_.attr == p_.args[1].value and ast.unparse(q_.value) == ast.unparse(p_.args[0]):
+                                return True
+                        return False
+                    truthy = isinstance(test, (ast.Name, ast.Attribute, ast.Call)) and not (isinstance(test, ast.Call) and call_name(test) in ('isinstance', 'hasattr', 'HasField', 'callable')
+                                                                                                  or isinstance(test, ast.Call) and isinstance(test.func, ast.Attribute) and test.func.attr == 'HasField')
+                    bad = truthy and same(test, st.value)
+                    ctx.ob('C16.j', f'{m.name}.{fn.name}:{ast.unparse(st.targets[0])}', not bad, '' if not bad else
+                           f'`if {ast.unparse(test)}:` decides whether the {f["type"]} field {ast.unparse(st.targets[0])} is written: a value of 0 is treated as absent and read back as None/default',
+                           m.rel, i_.lineno)
+    if n == 0:
+        raise AnalysisError('C16.j: no conditional store into a numeric proto field found')
+
+
+def _reader_type_guards(ctx, repo):
+    """C16.k - a type guard on a value read with an argument helper admits every type the helper can return."""
+    ctx.decided.append('C16.k readers: isinstance guards on values returned by float_arg_from_proto / arg_from_proto admit int wherever they admit float (the helpers return whole numbers '
+                       'as int, so a written 0.0 or 1.0 must pass the guard)')
+    ctx.rule('C16.k', 'guard covers the helper\'s range: for every helper of arg_func_langs whose body converts whole floats to int, each isinstance(v, T) applied in cirq_google to a value v '
+             'bound from a call of that helper names int (or a numbers.* class) whenever it names float', floor=2, style='COH')
+    am = repo.module('cirq-google/cirq_google/serialization/arg_func_langs.py')
+    helpers = set()
+    for f in [x for x in am.tree.body if isinstance(x, ast.FunctionDef)]:
+        if any(isinstance(c, ast.Call) and call_name(c) == 'int' for r in ast.walk(f) for c in ([r.value] if isinstance(r, ast.Return) and r.value is not None else
+                                                                                                   [r.value] if isinstance(r, ast.Assign) else []) if c is not None for c in ast.walk(c)):
+            helpers.add(f.name)
+    if not helpers:
+        raise AnalysisError('arg_func_langs: no helper converts whole floats to int any more (rule obsolete?)')
+    n = 0
+    for m in sorted(repo.modules.values(), key=lambda x: x.rel):
+        if not m.rel.startswith('cirq-google/') or m.rel.endswith('_test.py') or '_pb2' in m.rel:
+            continue
+        for fn in [f for f in ast.walk(m.tree) if isinstance(f, ast.FunctionDef)]:
+            bound = {}
+            for s in ast.walk(fn):
+                if isinstance(s, ast.Assign) and len(s.targets) == 1 and isinstance(s.targets[0], ast.Name) and isinstance(s.value, ast.Call) \
+                        and (call_name(s.value) or '').split('.')[-1] in helpers:
+                    bound.setdefault(s.targets[0].id, []).append(s)
+            if not bound:
+                continue
+            for c in ast.walk(fn):
+                if isinstance(c, ast.Call) and call_name(c) == 'isinstance' and len(c.args) == 2 and isinstance(c.args[0], ast.Name) and c.args[0].id in bound:
+                    names = [ast.unparse(e) for e in (c.args[1].elts if isinstance(c.args[1], ast.Tuple) else [c.args[1]])]
+                    if not any(t.split('.')[-1] == 'float' for t in names):
+                        continue
+                    n += 1
+                    ok = any(t.split('.')[-1] in ('int', 'Real', 'Number', 'Complex', 'Integral') for t in names)
+                    ctx.ob('C16.k', f'{m.name}.{fn.name}:isinstance({c.args[0].id}, {", ".join(names)})#{n}', ok, '' if ok else
+                           f'`{ast.unparse(c)}` rejects the int that {sorted(helpers)} return for whole numbers: a value written as 0.0 / 1.0 cannot be read back', m.rel, c.lineno)
+    if n == 0:
+        raise AnalysisError('C16.k: no isinstance guard on a helper result found')
+
+
+def _dedupe_keys(ctx, repo):
+    """C16.l - the key under which a constant is shared distinguishes everything that is written into the constant."""
+    ctx.decided.append('C16.l constants table: a moment (or sub-circuit) is shared between two uses only under a key that also compares the moment tags, which Moment.__eq__ ignores but the '
+                       'Moment constant carries (1 known finding: the sub-circuit key)')
+    ctx.rule('C16.l', 'dedupe key completeness: wherever CircuitSerializer looks a Moment or a circuit up in raw_constants, and Moment.__eq__ does not compare tags while the serializer writes '
+             'moment.tags into the constant, the lookup key mentions the tags of the moment(s) - otherwise an equal moment with other tags is replaced by the first one seen', floor=2, style='COH')
+    mo = repo.cls('cirq.circuits.moment.Moment')
+    eq = mo.methods.get('__eq__')
+    if eq is None:
+        raise AnalysisError('Moment.__eq__ vanished')
+    eq_sees_tags = any(isinstance(x, ast.Attribute) and x.attr in ('tags', '_tags') for x in ast.walk(eq))
+    m = repo.module(SER)
+    ci = repo.cls('cirq_google.serialization.circuit_serializer.CircuitSerializer')
+    writes_tags = any(isinstance(x, ast.Attribute) and x.attr == 'tags' and isinstance(x.value, ast.Name) for f in ci.methods.values() if f.name == '_serialize_circuit' for x in ast.walk(f))
+    n = 0
+    for fn in ci.methods.values():
+        circ_params = {a.arg for a in fn.args.args + fn.args.kwonlyargs if a.annotation is not None and 'Circuit' in ast.unparse(a.annotation) and '_pb2' not in ast.unparse(a.annotation)}
+        role = {}
+        for s in ast.walk(fn):
+            if isinstance(s, ast.For) and isinstance(s.target, ast.Name) and isinstance(s.iter, ast.Name) and s.iter.id in circ_params:
+                role[s.target.id] = 'moment'
+            if isinstance(s, ast.Assign) and len(s.targets) == 1 and isinstance(s.targets[0], ast.Name) and isinstance(s.value, ast.Attribute) and s.value.attr == 'circuit':
+                role[s.targets[0].id] = 'circuit'
+        if not role:
+            continue
+        defs = {s.targets[0].id: s.value for s in ast.walk(fn) if isinstance(s, ast.Assign) and len(s.targets) == 1 and isinstance(s.targets[0], ast.Name)}
+        for s in ast.walk(fn):
+            key = None
+            if isinstance(s, ast.Assign) and len(s.targets) == 1 and isinstance(s.targets[0], ast.Subscript) and ast.unparse(s.targets[0].value) == 'raw_constants':
+                key = s.targets[0].slice
+            if key is None:
+                continue
+            kexpr = defs.get(key.id, key) if isinstance(key, ast.Name) and key.id not in role else key
+            roots = {x.id for x in ast.walk(kexpr) if isinstance(x, ast.Name) and x.id in role}
+            for r in sorted(roots):
+                n += 1
+                sees = any(isinstance(x, ast.Attribute) and x.attr in ('tags', '_tags') for x in ast.walk(kexpr)) and (role[r] == 'moment' or any(isinstance(g, (ast.GeneratorExp, ast.ListComp)) for g in ast.walk(kexpr)))
+                ok = eq_sees_tags or not writes_tags or sees
+                ctx.ob('C16.l', f'{ci.qual}.{fn.name}:raw_constants[{role[r]}]', ok, '' if ok else
+                       f'a {role[r]} is shared through raw_constants[{ast.unparse(kexpr)[:40]}]: equality of that key ignores moment tags (Moment.__eq__ compares operations only) but the constant '
+                       'carries them, so a later equal moment with different tags is read back with the tags of the first', m.rel, s.lineno)
+    if n == 0:
+        raise AnalysisError('C16.l: no moment / circuit key in raw_constants found')
